@@ -147,6 +147,25 @@ Theorem cyclic_list_refuted :
 Proof. exists f14_list_history. vm_compute. repeat split; reflexivity. Qed.
 Print Assumptions cyclic_list_refuted.
 
+(* New finding: del o.kids on an observed container trait notifies twice (ctraits.c setattr_trait, value ==
+   NULL: getattr_trait materialises the default with old = Uninitialized, then call_notifiers(old, new)),
+   so every maintainer hooks the new container twice.  After the container is replaced, the detached one
+   still calls the handler: the law fails at the last step, nothing raises, the invariant is broken. *)
+Definition del_container_history : list op :=
+  [SetCont 0 3 [1] false; Observe 0 0 (G [3] true true [G [6] true false []]); DelCont 0 3;
+   SetCont 0 3 [2] false; Splice 4 6 0 0 [1]].
+Theorem del_container_refuted :
+  exists ops, Forall (fun p : op * obs => ob_out (snd p) = Ok) (run (init 3) ops)
+              /\ hyps (init 3) ops = false
+              /\ law_hist 0%Z init_traits (fun _ _ => []) [] (run (init 3) ops) = [402%Z]
+              /\ ~ inv (final (init 3) (firstn 3 ops)).
+Proof.
+  exists del_container_history. split; [vm_compute; repeat constructor|]. split; [vm_compute; reflexivity|].
+  split; [vm_compute; reflexivity|].
+  intros I. unfold inv in I. apply Permutation_length in I. vm_compute in I. discriminate.
+Qed.
+Print Assumptions del_container_refuted.
+
 (* Non-vacuity: a history over a DAG with a list holding the same object twice, an equal list
    re-assigned, a default materialised late, a quiet link, a filter node (f and g), an optional observer
    of a trait added later with add_trait, and an anytrait leaf meets the hypotheses, and calls happen. *)
